@@ -154,7 +154,7 @@ Lemma OK_unpack_v : forall k bits pos, OK (unpack_v c k bits pos).
 Proof.
   fix IH 1. intros k bits pos. destruct k; cbn [unpack_v].
   - apply OK_nth_bits.
-  - apply OK_bind; [apply OK_nth_bits|intros b0].
+  - destruct (Nat.eqb (bitlen_of m) 0); [okp|]. apply OK_bind; [apply OK_nth_bits|intros b0].
     destruct b0; try (apply OK_bind; [apply OK_fold_bits2|intros ts; apply OK_py_sum]);
       (destruct (firstn (bitlen_of m) (skipn pos bits)) as [|x0 rest]; [okp|]);
       (apply OK_bind; [apply OK_op2|intros t0]); (apply OK_bind; [apply OK_op2|intros a0]);
